@@ -65,7 +65,7 @@ class ProducerScenario:
         world.main_task = world.spawn("p", self.main)
 
     def state_fault_alts(self, world, quiescent):
-        if world.chooser.remaining("f") <= 0 or not quiescent:
+        if world.chooser.remaining("f") <= 0 or not quiescent or not self.cluster.faults_enabled:
             return []
         part = self.cluster.partition("t", 0)
         if getattr(self, "_moved", False):
@@ -95,7 +95,11 @@ class ProducerScenario:
                                 linger_ms=0 if single else p.get("linger_ms", 20),
                                 compression_type=p.get("compression"), **kw)
         self.prod = prod
+        self.cluster.faults_enabled = False  # a failed bootstrap raises from start(): outside the properties
+        world.frozen = True
         await prod.start()
+        world.frozen = False
+        self.cluster.faults_enabled = True
         s0 = p.get("s0", 0)
         if p.get("idempotent") and s0:
             from aiokafka.structs import TopicPartition
